@@ -20,12 +20,14 @@ KEY_PARAMS = ("key", "keys", "values")
 EXEMPT_OPTIONS = {
     "PooledClient": {
         "ignore_exc": "the wrapper must see failures to destroy the connection; re-implemented per method (checked by C07/C09.R3)",
-        "serializer": "folded into `serde` by LegacyWrappingSerde before forwarding",
-        "deserializer": "folded into `serde` by LegacyWrappingSerde before forwarding",
         "server": "passed positionally",
     },
     "HashClient": {"ignore_exc": "failures must reach the failover logic; re-implemented in _safely_run_func (C07/C13)", "server": "one client per server"},
 }
+
+
+# the deprecated pair may reach the inner clients inside the `serde` they are given
+FOLDED_INTO_SERDE = ("serializer", "deserializer")
 
 
 def key_ops(prog):
@@ -166,6 +168,16 @@ def run(chk):
         if o in EXEMPT_OPTIONS["PooledClient"]:
             r3.note("PooledClient option `%s` exempt: %s" % (o, EXEMPT_OPTIONS["PooledClient"][o]))
             continue
+        if o in FOLDED_INTO_SERDE and not any(o in kw for pos, kw in created):
+            # the deprecated pair travels inside `serde`: on the path where `serde` itself is not what is passed,
+            # the value passed as serde is computed from this option
+            if any("**" in kw for pos, kw in created):
+                r3.undecided("PooledClient:option-not-propagated:%s" % o, "the clients are constructed with a `**mapping` whose content the analysis lost")
+                continue
+            carried = any(isinstance(kw.get("serde"), pooled_an.Derived) and o in kw["serde"].names for pos, kw in created)
+            r3.expect(carried, "PooledClient option %s: constructor parameter -> folded into client_class(serde=...)" % o, "PooledClient:option-not-propagated:%s" % o,
+                      "the clients PooledClient creates are given neither `%s` nor a serde computed from it: a pool configured with the deprecated %s function creates clients that use the pass-through serde, while Client with the same option does not" % (o, o), fn=cc, node=cc.node)
+            continue
         msg = None
         for pos, kw in created:
             v = kw.get(o, "<not passed>")
@@ -233,6 +245,9 @@ def run(chk):
                     r3.fail("%s:unknown-option:%s" % (cname, k), "the per-server clients are constructed with `%s`, which Client.__init__ does not accept" % k, fn=hinit, node=hinit.node)
             # failures must reach the failover logic: the per-server clients are never told to swallow them
             v = kw.get("ignore_exc", None)
+            if v is None and "**" in kw:
+                r3.undecided("%s:ignore_exc-forwarded" % cname, "the per-server clients are constructed with a `**mapping` whose content the analysis lost")
+                continue
             r3.expect(v is None or v == Const(False), "%s: per-server clients keep ignore_exc=False" % cname, "%s:ignore_exc-forwarded" % cname, "%s constructs its per-server clients with ignore_exc=%s: with ignore_exc set their reads swallow connection errors, so %s never sees a failure - no marking, no back-off, no eviction, every call contacts the dead server" % (cname, "its own `ignore_exc` option" if isinstance(v, pooled_an.P) else v, cname), fn=hinit, node=hinit.node)
 
     # ------------------------------------------------------------------ R4 RetryingClient transparency
